@@ -105,6 +105,9 @@ def safe_run(prop, case):
         return finish(out)
 
 
+_HISTORY = []     # cases executed so far by this worker process, in order
+
+
 def _wrun(job):
     i, kind, payload, tier = job
     if _INIT_ERROR is not None:
@@ -123,13 +126,23 @@ def _wrun(job):
         out = safe_run(_PROP, case)
         out['wall'] = time.time() - t0
         keep_case = bool(out['violations'] or out['harness']) or i < 3 or kind != 'seed'
+        if out['violations']:
+            # what this process had executed before: needed if the failure turns out to depend on
+            # state the code under test leaks from one independent case to the next
+            out['history'] = list(_HISTORY[-16:])
+        _HISTORY.append(case)
         return i, kind, (case if keep_case else None), out
     finally:
         faulthandler.cancel_dump_traceback_later()
 
 
 def _wshrink(args):
+    """Runs in a *fresh* single-use worker, i.e. without any history: first make sure the case
+    fails on its own."""
     case, sig, budget = args
+    first = safe_run(_PROP, case)
+    if not any(v['signature'] == sig for v in first['violations']):
+        return None, 0, None
     small, steps = shrink(_PROP, case, sig, budget_s=budget)
     if hasattr(_PROP, 'pin'):
         # store the interleaving explicitly (run-length encoded thread choices), so that the
@@ -186,14 +199,17 @@ def shrink(prop, case, signature, budget_s=60, max_steps=400):
     return case, steps
 
 
-def write_replay(pid, case, v):
+def write_replay(pid, case, v, history=None):
     d = os.environ.get('VERIF_EVIDENCE_DIR') or os.path.join(VERIF, 'replays')
     os.makedirs(d, exist_ok=True)
     name = '%s-%s-%s.json' % (pid, case.get('seed', 0), hashlib.sha256(v['signature'].encode()).hexdigest()[:8])
     p = os.path.join(d, name)
     with open(p, 'w') as fh:
-        json.dump({'property': pid, 'signature': v['signature'], 'kind': v['kind'], 'site': v['site'],
-                   'detail': v['detail'], 'case': case}, fh, indent=1, sort_keys=True, default=_js)
+        rec = {'property': pid, 'signature': v['signature'], 'kind': v['kind'], 'site': v['site'],
+               'detail': v['detail'], 'case': case}
+        if history:
+            rec['history_before'] = history
+        json.dump(rec, fh, indent=1, sort_keys=True, default=_js)
     return p
 
 
@@ -219,6 +235,8 @@ def run_replay(pid, path, quiet=False):
     case = rec['case'] if 'case' in rec else rec
     if hasattr(prop, 'warmup'):
         prop.warmup()
+    for prev in rec.get('history_before', []):
+        safe_run(prop, prev)      # the failure depends on what the process executed before
     out = safe_run(prop, case)
     if out['harness']:
         print('HARNESS-ERROR property=%s %s' % (pid, out['harness']))
@@ -336,8 +354,8 @@ def run_check(pid, tier, seconds=None, runs=None, workers=None, verif_seed=None)
             f = match_finding(findings, v)
             if f is not None:
                 bump(known_hits, f['id'])
-            elif v['signature'] not in new_violations and case is not None:
-                new_violations[v['signature']] = (case, v)
+            elif case is not None and len(new_violations.get(v['signature'], [])) < 6:
+                new_violations.setdefault(v['signature'], []).append((case, v, out.get('history', [])))
 
     def crashed(job):
         """A worker died while running this job (already confirmed alone)."""
@@ -354,7 +372,7 @@ def run_check(pid, tier, seconds=None, runs=None, workers=None, verif_seed=None)
         if f is not None:
             bump(known_hits, f['id'])
         elif v['signature'] not in new_violations:
-            new_violations[v['signature']] = (case, v)
+            new_violations[v['signature']] = [(case, v, [])]
 
     def jobs():
         n = 0
@@ -424,25 +442,57 @@ def run_check(pid, tier, seconds=None, runs=None, workers=None, verif_seed=None)
         for fut in pending:
             fut.cancel()
 
-    # ---- minimise + confirm new violations (in a worker, never in this process)
+    # ---- minimise + confirm new violations (in fresh workers, never in this process)
     reported = []
-    for sig, (case, v) in new_violations.items():
-        small, nshr = case, 0
-        if not sig.startswith('crash@'):
-            try:
-                small, nshr, v2 = ex.submit(_wshrink, (case, sig, getattr(prop, 'SHRINK_SECONDS', 60))).result(timeout=600)
-                if v2 is not None:
-                    v = v2
-            except Exception:
-                kill_pool(ex)
-                ex = _make_pool(pid, workers)
-        path = write_replay(pid, small, v)
-        ok, tail = confirm_replay(pid, path)
-        if ok:
-            reported.append((sig, path, nshr))
-        else:
-            agg['harness'].append({'origin': 'replay', 'error': 'replay of %s did not reproduce: %s' % (path, tail)})
     kill_pool(ex)
+    for sig, cands in new_violations.items():
+        done = False
+        if sig.startswith('crash@'):
+            case, v, _ = cands[0]
+            path = write_replay(pid, case, v)
+            ok, tail = confirm_replay(pid, path)
+            if ok:
+                reported.append((sig, path, 0))
+            else:
+                agg['harness'].append({'origin': 'replay', 'error': 'replay of %s did not reproduce: %s' % (path, tail)})
+            continue
+        for case, v, hist in cands:
+            # a fresh single-use worker has no history: a case that fails there fails on its own
+            ex1 = _make_pool(pid, 1)
+            try:
+                small, nshr, v2 = ex1.submit(_wshrink, (case, sig, getattr(prop, 'SHRINK_SECONDS', 60))).result(timeout=900)
+            except Exception:
+                small, nshr, v2 = None, 0, None
+            kill_pool(ex1)
+            if small is None:
+                continue
+            path = write_replay(pid, small, v2 or v)
+            ok, tail = confirm_replay(pid, path)
+            if ok:
+                reported.append((sig, path, nshr))
+                done = True
+                break
+        if done:
+            continue
+        # no case fails on its own: the failure depends on what the worker had executed before, i.e. the
+        # code under test carries state from one independent case to the next.  Replay = shortest suffix
+        # of that history followed by the case.
+        for case, v, hist in cands:
+            for k in (1, 2, 4, 8, 16):
+                if k > len(hist) and k != 1:
+                    break
+                path = write_replay(pid, case, dict(v, detail={'note': 'fails only after the listed earlier cases ran in the '
+                                                               'same process (state carried between independent cases)',
+                                                               'original': v['detail']}), history=hist[-k:])
+                ok, tail = confirm_replay(pid, path)
+                if ok:
+                    reported.append((sig, path, 0))
+                    done = True
+                    break
+            if done:
+                break
+        if not done:
+            agg['harness'].append({'origin': 'replay', 'error': 'no replay of %s reproduced in a fresh process' % sig})
 
     # ---- evidence
     wall = time.time() - t_start
